@@ -2,7 +2,8 @@ import os, vlib
 def build(log):
     S = vlib.Src('src/migration/scan_migration.rs', log)
     parts = []
-    for c in ('PTTL_NO_EXPIRE', 'PTTL_KEY_NOT_FOUND', 'RESTORE_NO_EXPIRE'):
+    import re
+    for c in re.findall(r'pub const ((?:PTTL|RESTORE)_\w+): &\[u8\] = b"', S.text):
         parts.append(S.item('const', c))
     parts.append(S.fn('pttl_to_restore_expire_time').text)
     parts.append(S.fn('pttl_need_to_be_no_expire').text)
